@@ -268,9 +268,9 @@ class OLEQ:
         _assert_numerical_iterable(self.mag, 'Geomagnetic field vector')
         if self.acc.shape != self.mag.shape:
             raise ValueError("acc and mag are not the same size")
-        num_samples = np.atleast_2d(self.acc).shape[0]
-        if num_samples < 2:
+        if np.ndim(self.acc) < 2:       # one sample; a one-row array is a batch of one and yields a 1-by-4 array
             return self.estimate(self.acc, self.mag)
+        num_samples = len(self.acc)
         return np.array([self.estimate(self.acc[t], self.mag[t]) for t in range(num_samples)])
 
     def WW(self, Db: np.ndarray, Dr: np.ndarray) -> np.ndarray:
